@@ -580,15 +580,17 @@ macro_rules! typed_comparision {
                 None => Ok(Value::Boolean(true)),
                 Some(first) => {
                     let mut last_num = first.$expect_type()?;
+                    // every argument is type-checked, also those after the pair that decides the result
+                    let mut result = true;
                     for current in iter {
                         let current_num = current.$expect_type()?;
                         #[allow(clippy::neg_cmp_op_on_partial_ord)]
                         if !(last_num $operator current_num) {
-                            return Ok(Value::Boolean(false));
+                            result = false;
                         }
                         last_num = current_num;
                     }
-                    Ok(Value::Boolean(true))
+                    Ok(Value::Boolean(result))
                 }
 
             }
